@@ -182,6 +182,9 @@ type c20MW struct {
 	Sticky    bool   `json:"sticky,omitempty"`
 	Retry     string `json:"retry,omitempty"` // buffer: a retry expression that is false for the response the handler gives
 	MaxReq    int64  `json:"max_request_body,omitempty"` // buffer: request-size limit equal to the size of the body sent (not exceeded)
+	// rebalancer: two servers that the wrapped balancer already knew before they were registered with the rebalancer put in
+	// front of it, and meters that are ready at once (so that the rebalancer really evaluates its servers on every request)
+	PreExisting bool `json:"pre_existing_pool,omitempty"`
 }
 
 type c20Built struct {
@@ -237,12 +240,23 @@ func c20Build(specs []c20MW, inner http.Handler) (http.Handler, error) {
 				if sp.Sticky {
 					ropts = append(ropts, roundrobin.RebalancerStickySession(roundrobin.NewStickySession("c20aff")))
 				}
+				if sp.PreExisting {
+					ropts = append(ropts, roundrobin.RebalancerBackoff(time.Nanosecond), roundrobin.RebalancerMeter(func() (roundrobin.Meter, error) { return &scriptedMeter{ready: true}, nil }))
+				}
 				rb, e := roundrobin.NewRebalancer(rr, ropts...)
 				if e != nil {
 					return nil, e
 				}
 				if !sp.Intervene {
-					_ = rb.UpsertServer(mustURL(sfmt("http://backend%d.test/", i)))
+					if sp.PreExisting {
+						for _, sfx := range []string{"a", "b"} {
+							u := mustURL(sfmt("http://backend%d%s.test/", i, sfx))
+							_ = rr.UpsertServer(u)
+							_ = rb.UpsertServer(u)
+						}
+					} else {
+						_ = rb.UpsertServer(mustURL(sfmt("http://backend%d.test/", i)))
+					}
 				}
 				h = rb
 			} else {
@@ -287,6 +301,7 @@ func c20Stacks(c *Ctx) {
 		specs := make([]c20MW, depth)
 		for k := range specs {
 			specs[k] = c20MW{Kind: pick(r, c20Kinds), Sticky: r.IntN(4) == 0}
+			specs[k].PreExisting = specs[k].Kind == "rebalancer" && r.IntN(2) == 0
 		}
 		mode := "transparent"
 		var iv int = -1
